@@ -167,6 +167,16 @@ def run(ctx):
         cexs += [r for r in h.results if r['kind'] == 'cex']
         ctx.obligations['into_portable(%s) is the structural image with MetaType -> id_of, vectors <= %d %s (%d paths)' % (KINDS[k], c, caps or '', sum(h.kinds.values()))] = 'sat' if h.kinds.get('cex') else 'unsat'
         if k == 1: ctx.samples.append({'harness': h.name, 'paths': sum(h.kinds.values()), 'oracle': 'per path: pc AND (some field/name/index/doc/len differs OR some id != id_of(type id)) is unsat'})
+    # the registration side of the property (the returned id resolves to that image): bounded black-box histories on the real Registry
+    from lib import regstep
+    from checks import c01
+    for n in (1, 2, 3):
+        try:
+            h = run_harness(ctx, 'registry-history-%d' % n, regstep.body_registry_history(n))
+        except CheckInconclusive as e:
+            ctx.notes.append('registry history n=%d not executable: %s' % (n, str(e)[:200])); continue
+        hc = c01.collect(ctx, h, 'registry history', 'C02')
+        for r in hc: cexs.append(dict(r, what='registry_history', defkind=5, where=r.get('failed')))
     hn = run_harness(ctx, 'negative-control', body_into_portable(1, 0, wrong=True), models=MODELS_C02); ctx.harnesses.pop()
     if not any(r['kind'] == 'cex' for r in hn.results): raise CheckInconclusive('negative control not refuted')
     if cexs:
